@@ -31,7 +31,7 @@ def gen(ctx):
     rng = random.Random(ctx.seed * 1103515245 + 13)
     scen = []
     combos = [("real", "real"), ("real", "ref"), ("ref", "real")]
-    for i in range(45 if quick else 500):
+    for i in range(45 if quick else 1500):
         c, s = combos[i % 3]
         sc = {"cw": [rng.choice(SIZES) for _ in range(rng.randrange(0, 5))], "sw": [rng.choice(SIZES) for _ in range(rng.randrange(0, 5))],
               "c2s": policy(rng), "s2c": policy(rng), "rbuf": rng.choice([[4096], [1], [7, 1, 4096], [65536], [31, 33]]),
